@@ -26,6 +26,9 @@ import   "github.com/pbenner/autodiff/algorithm/matrixInverse"
 
 /* -------------------------------------------------------------------------- */
 
+// the iteration is not guaranteed to converge: give up after this many steps
+const maxIterations = 1000
+
 // Sherif, Nagwa. "On the computation of a matrix inverse square root."
 // Computing 46.4 (1991): 295-305.
 
@@ -46,7 +49,10 @@ func mSqrtInv(matrix Matrix) (Matrix, error) {
   }
   X1 := NullDenseMatrix(matrix.ElementType(), n, n)
   X1.MmulS(S1.MdotM(X0, t), c)
-  for t1.Mnorm(S1.MsubM(X0, X1)).GetFloat64() > 1e-8 {
+  for iter := 0; t1.Mnorm(S1.MsubM(X0, X1)).GetFloat64() > 1e-8; iter++ {
+    if iter >= maxIterations {
+      return nil, errors.New("MSqrtInv(): iteration did not converge")
+    }
     X0, X1 = X1, X0
     t, err := matrixInverse.Run(S1.MaddM(I, S2.MdotM(A, S1.MdotM(X0, X0))))
     if err != nil {
